@@ -391,12 +391,12 @@ fn parse_trim_chars(pair: pest::iterators::Pair<Rule>) -> String {
     if let Some(_second) = parts.next() {
         // If there are two arguments, first is chars, second is direction
         // (regardless of what the first argument contains)
-        first.as_str().to_string()
+        process_arg(first.as_str())
     } else {
         // Only one argument - check if it's a direction or chars
         match first.as_str() {
             "left" | "right" | "both" => String::new(), // It's a direction, no chars
-            chars => chars.to_string(),                 // It's chars
+            chars => process_arg(chars),                // It's chars
         }
     }
 }
